@@ -604,16 +604,20 @@ class Bromelia:
         except threading.BrokenBarrierError:
             self.send_threshold.reset()
 
-        worker.set_outgoing_message(msg)
-        bromelia_logger.debug(f"{logging_info} Just put message into "\
-                              f"send_queue Queue and notified send_event Event")
-
+        #: The pending answer is registered before the request is handed to the
+        #: connection layer: an answer that arrives right away must already
+        #: find the waiter it belongs to.
         if msg.header.is_request() and recv_answer:
             p_answer = PendingAnswer(msg)
 
             worker.insert_pending_answer(p_answer)
             bromelia_logger.debug(f"{logging_info} Added Pending answer")
 
+        worker.set_outgoing_message(msg)
+        bromelia_logger.debug(f"{logging_info} Just put message into "\
+                              f"send_queue Queue and notified send_event Event")
+
+        if msg.header.is_request() and recv_answer:
             p_answer.wait()
             bromelia_logger.debug(f"{logging_info} Notification from "\
                                   f"Pending answer")
